@@ -150,7 +150,9 @@ def _c06(seed, quick):
 def _c11(seed, quick):
     m, mb = (12, 40) if quick else (300, 420)
     return {
-        "shards": conc_shards("C11", seed, "burst", m, mb, shards=14) + conc_shards("C11", seed, "held-client", 600 if quick else 20000, mb, shards=2),
+        # thorough only: the two real-time cases (a 12 s stall behind a full queue, 62 s without a write)
+        "shards": conc_shards("C11", seed, "burst", m, mb, shards=14 if quick else 12) + conc_shards("C11", seed, "held-client", 600 if quick else 20000, mb, shards=2)
+                  + ([] if quick else conc_shards("C11", seed, "idle", 1, 200, shards=2)),
         "rule": "Bursts of 10-300 un-awaited writes from 1-16 threads, command_buffer_size in {1,2,3,8,32768}, worker slowed at its dequeue / before its acknowledgement "
                 "so that the queue really fills. distinct = hash of the execution order (thread, per-thread sequence number); non-trivial = at least 10 queued "
                 "commands and, with more than one thread, cross-thread ordered pairs were available.",
@@ -297,7 +299,7 @@ def _c16_extra(seed, quick):
 
 def _c17_extra(seed, quick):
     # the stress workload of C18 as well: a wedged worker or sweeper no longer "keeps completing writes"
-    return conc_shards("C17", seed, "mixed", 20 if quick else 400, 40 if quick else 400, shards=4) + conc_shards("C17", seed, "stress", 3 if quick else 60, 60 if quick else 500, shards=4, extra=["--ops", "2500" if quick else "20000"])
+    return conc_shards("C17", seed, "mixed", 20 if quick else 400, 40 if quick else 400, shards=4) + conc_shards("C17", seed, "stress", 3 if quick else 60, 60 if quick else 500, shards=4 if quick else 2, extra=["--ops", "2500" if quick else "20000"]) + ([] if quick else conc_shards("C17", seed, "idle", 1, 200, shards=2))
 
 
 SEQ_ONLY = {
